@@ -86,7 +86,7 @@ def ContactTouchesOnlyOwnHeldDecisions : Prop :=
     e ∉ (stepStore c (runStore c {} ops).1 (.message m)).1.postponed →
     m.fromAcc = c.own ∨ e.owner = m.fromAcc
 
-/-- **Defect (finding `C18:cross-account-discard:distrust`).**  `distrust()` removes the held-back entries
+/-- **Defect (finding `C18:cross-account-discard`, mechanism 1: distrust).**  `distrust()` removes the held-back entries
 by sender key ID whatever account that ID belongs to.  Own account 0; account 2's not yet authenticated
 device with key id 1 says "2:2 is trusted" (held back); the user authenticates key 3 of account 1; account 1,
 using key 3, says "1:1 is DIStrusted" — i.e. names key id 1 as one of its own.  The decision of account 2's
@@ -103,7 +103,7 @@ theorem C18_defect_cross_account_discard_by_distrust : ¬ ContactTouchesOnlyOwnH
 example : (runStore ⟨0, 0⟩ {} [.message ⟨2, 1, 1, true, [⟨2, [2], []⟩]⟩, .manual 1 [3] [],
     .message ⟨1, 1, 3, true, [⟨1, [], [1]⟩]⟩, .manual 2 [1] []]).1.level 2 2 = .undecided := by decide
 
-/-- **Defect (finding `C18:cross-account-discard:superseded`).**  `makePostponedTrustDecisions` removes what it
+/-- **Defect (finding `C18:cross-account-discard`, mechanism 2: supersession).**  `makePostponedTrustDecisions` removes what it
 applies by verdict and key ID, whatever the owner and the sender.  Own account 0; account 2's device key 1
 says "2:2 is distrusted", account 1's device key 4 says "1:2 is distrusted" (both held back); the user
 authenticates key 3 of account 1; account 1, using key 3, says "1:4 is trusted": the entry held under key id 4
